@@ -415,8 +415,6 @@ Section Spec.
 
   Definition is_import (d : dependency) : bool := bytes_eqb (d_scope d) s_import.
 
-  (* The effective dependencies and the effective management of a project;
-     fuel bounds the nesting of imports (a nesting deeper than the repository is a cycle). *)
   (* An element that is WRITTEN but whose text interpolates to the empty string (a property defined
      with an empty value, R10) is not the same to the model builder as an element that is absent:
      a dependency whose groupId, artifactId, version or type ends up empty is an error; an empty
@@ -442,6 +440,47 @@ Section Spec.
 
   Definition flags_in (all : list entry) (d : dependency) : entry :=
     (d, (existsb (fun e => declares (ident_of d) (e_dep e) && e_cl e) all, false)).
+
+  (* interpolation and validation of a selected list.  strict: every placeholder must resolve and
+     no two entries may become equal; an imported project's own dependencies are only looked at for
+     what makes its model invalid.  is_deps: the dependencies proper (version and type are
+     validated), not the managed ones *)
+  Definition finish (t : table) (strict is_deps : bool) (l : list dependency) : sres (list entry) :=
+    if existsb (fun d => blank (d_group d) || blank (d_artifact d)) l then SUnsupported U_blank_id
+    else
+      let r := map (fun d => (d, resolve_dep t d)) l in
+      let res_of (x : dependency * (dependency * bool)) := fst (snd x) in
+      if existsb (fun x => blank (d_group (res_of x)) || blank (d_artifact (res_of x))) r then SErr
+      else if is_deps && existsb (fun x => written_empty (d_version (fst x)) (d_version (res_of x))
+                                           || written_empty (d_type (fst x)) (d_type (res_of x))) r then SErr
+      else if negb is_deps && existsb (fun x => written_empty (d_type (fst x)) (d_type (res_of x))) r
+           then SUnsupported U_empty_field
+      else if strict && negb (forallb (fun x => snd (snd x)) r) then SUnsupported U_unresolved
+      else
+        let l' := map (fun x => (with_type (res_of x),
+                                 (written_empty (d_classifier (fst x)) (d_classifier (res_of x)),
+                                  written_empty (d_scope (fst x)) (d_scope (res_of x))))) r in
+        if strict && has_dup (map (fun e => ident_of (e_dep e)) l') then SUnsupported U_collision
+        else SOk l'.
+
+  (* R7 (first entry of an identity wins over own entries then imports) and R8 (injection) *)
+  Definition conclude (is_root : bool) (deps own : list entry) (imported : list (list entry))
+    : sres (list dependency * list entry) :=
+    let candidates := own ++ concat imported in
+    if mixed_classifier (deps ++ candidates) then SUnsupported U_null_vs_empty
+    else
+    let final := first_wins (map e_dep candidates) in
+    (* Maven rejects a model in which a dependency is left without a version *)
+    if existsb (fun e => e_sc e && match find (declares (ident_of (e_dep e))) final with
+                                   | Some m => negb (blank (d_scope m))
+                                   | None => false
+                                   end) deps
+    then SUnsupported U_null_vs_empty
+    else
+    let injected := map (fun e => inject final (e_dep e)) deps in
+    if existsb (fun d => blank (d_version d)) injected
+    then (if is_root then SUnsupported U_no_version else SErr)
+    else SOk (injected, map (flags_in candidates) final).
 
   (* The effective dependencies and the effective management of a project;
      fuel bounds the nesting of imports (a nesting deeper than the repository is a cycle). *)
@@ -469,53 +508,18 @@ Section Spec.
         (* R2-R4 on the written entries, then interpolation *)
         let sel (of_ : project * list profile -> list dependency) :=
           select (flat_map of_ poms) (flat_map (fun pa => rev (of_ pa)) poms) in
-        (* strict: every placeholder must resolve and no two entries may become equal; an imported
-           project's own dependencies are only looked at for what makes its model invalid.
-           is_deps: the dependencies proper (version and type are validated), not the managed ones *)
-        let finish (strict is_deps : bool) (l : list dependency) : sres (list entry) :=
-          if existsb (fun d => blank (d_group d) || blank (d_artifact d)) l then SUnsupported U_blank_id
-          else
-            let r := map (fun d => (d, resolve_dep t d)) l in
-            let res_of (x : dependency * (dependency * bool)) := fst (snd x) in
-            if existsb (fun x => blank (d_group (res_of x)) || blank (d_artifact (res_of x))) r then SErr
-            else if is_deps && existsb (fun x => written_empty (d_version (fst x)) (d_version (res_of x))
-                                                 || written_empty (d_type (fst x)) (d_type (res_of x))) r then SErr
-            else if negb is_deps && existsb (fun x => written_empty (d_type (fst x)) (d_type (res_of x))) r
-                 then SUnsupported U_empty_field
-            else if strict && negb (forallb (fun x => snd (snd x)) r) then SUnsupported U_unresolved
-            else
-              let l' := map (fun x => (with_type (res_of x),
-                                       (written_empty (d_classifier (fst x)) (d_classifier (res_of x)),
-                                        written_empty (d_scope (fst x)) (d_scope (res_of x))))) r in
-              if strict && has_dup (map (fun e => ident_of (e_dep e)) l') then SUnsupported U_collision
-              else SOk l' in
-        deps <~ finish is_root true (sel deps_of) ;;
-        mgmt <~ finish true false (sel mgmt_of) ;;
-        (* R7 *)
+        deps <~ finish t is_root true (sel deps_of) ;;
+        mgmt <~ finish t true false (sel mgmt_of) ;;
+        (* R7: imports *)
         if existsb (fun e => is_import (e_dep e) && negb (bytes_eqb (d_type (e_dep e)) s_pom)) mgmt
         then SUnsupported U_import_type
         else
-          let own := filter (fun e => negb (is_import (e_dep e))) mgmt in
           imported <~ smap (fun e => let d := e_dep e in
                                      match locate (d_group d, d_artifact d, d_version d) with
                                      | None => SErr
                                      | Some b => r <~ build f false b ;; SOk (snd r)
                                      end) (filter (fun e => is_import (e_dep e)) mgmt) ;;
-          let candidates := own ++ concat imported in
-          if mixed_classifier (deps ++ candidates) then SUnsupported U_null_vs_empty
-          else
-          let final := first_wins (map e_dep candidates) in
-          (* R8; Maven rejects a model in which a dependency is left without a version *)
-          if existsb (fun e => e_sc e && match find (declares (ident_of (e_dep e))) final with
-                                         | Some m => negb (blank (d_scope m))
-                                         | None => false
-                                         end) deps
-          then SUnsupported U_null_vs_empty
-          else
-          let injected := map (fun e => inject final (e_dep e)) deps in
-          if existsb (fun d => blank (d_version d)) injected
-          then (if is_root then SUnsupported U_no_version else SErr)
-          else SOk (injected, map (flags_in candidates) final)
+          conclude is_root deps (filter (fun e => negb (is_import (e_dep e))) mgmt) imported
     end.
 
   Definition effective (root : project) : sres (list dependency * list dependency) :=
